@@ -60,9 +60,13 @@ fn slice(s: u64, len: usize) -> Vec<u64> {
 /// G-L: a history of up to 200 operations sized to hover around capacity.
 pub fn history(r: &Recipe) -> Vec<VecOp> {
     let n = (r.k[0] % 201) as usize;
-    let mut ops = Vec::with_capacity(n);
+    let mut ops = Vec::with_capacity(n + 2);
+    // every history starts from a vector built by from_u64 out of a value with distinct halves (so that even the
+    // handful of histories run by the interpreted 32-bit / big-endian stages exercise that construction route)
+    ops.push(VecOp::FromU64(gen::mix(r.a ^ 0xf0) | 0x0000_0001_0000_0002));
+    ops.push(VecOp::CloneToB);
     // running length estimate, to aim arguments at the capacity edge
-    let mut est: usize = 0;
+    let mut est: usize = 1;
     for i in 0..n {
         let s = gen::mix(r.a ^ (i as u64 + 1).wrapping_mul(0xd6e8_feb8_6659_fd93) ^ r.b.rotate_left(i as u32 % 64));
         // digits of the recipe steer the op kind where available (so that shrinking simplifies histories)
